@@ -21,6 +21,7 @@ func init() {
 		NotCovered: "objects created inside gogen (their positions are whatever cl passed to gogen's constructors, which rule 1 covers only when the constructor call is in the same function), the Types/Scopes maps, and the agreement with go/types on name, kind and type of every object.",
 		Run:        runC12,
 		Controls: []Control{
+			{Name: "elided-literal-type-recorded", File: "cl/recorder.go", Old: "\tif v.Type != nil { // the type is elided in {1, 2} of []P{{1, 2}}\n\t\trec.Type(v.Type, typesutil.NewTypeAndValueForType(typ))\n\t}\n", New: "\trec.Type(v.Type, typesutil.NewTypeAndValueForType(typ))\n", Expect: "types-key-guard/goxRecorder.recordCompositeLit:v.Type"},
 			{Name: "short-var-decl-records-all-names", File: "cl/stmt.go", Old: "\t\t\t\tif scope.Lookup(v.Name) == nil {\n\t\t\t\t\tnewNames = append(newNames, v)\n\t\t\t\t}\n", New: "\t\t\t\tnewNames = append(newNames, v)\n", Expect: "def-only-new/compileAssignStmt"},
 			{Name: "member-type-recorded-for-go-nodes", File: "cl/recorder.go", Old: "\t\t\tp.Use(sel, obj)\n\t\t\tp.Type(v, tv)\n\t\t}\n", New: "\t\t\tp.Use(sel, obj)\n\t\t\t_ = tv\n\t\t}\n\t\tp.Type(v, typesutil.NewTypeAndValueForObject(obj))\n", Expect: "go-node-guard/goxRecorder.Member"},
 			{Name: "field-def-at-type-pos", File: "cl/func_type_and_var.go", Old: "\t\t\tfld := types.NewField(name.NamePos, pkg, name.Name, typ, false)\n\t\t\tfields = append(fields, fld)", New: "\t\t\tfld := types.NewField(field.Type.Pos(), pkg, name.Name, typ, false)\n\t\t\tfields = append(fields, fld)", Expect: "def-position/toStructType:name"},
@@ -50,6 +51,7 @@ func runC12(c *core.Check) {
 	info := pk.TypesInfo
 	c12ShortVarDecl(c, pk)
 	c12GoIdentGuard(c, pk)
+	c12TypesKeys(c, prog, pk)
 	nDef, nUse := 0, 0
 	for _, fd := range core.AllFuncDecls(pk) {
 		if fd.Body == nil {
